@@ -1,9 +1,232 @@
-(* C19 — interim *)
-From LibTw2 Require Import Base.Res Model.Buffer.
-From Coq Require Import ZArith List.
+(* C19 — the uninitialized-buffer abstraction never overruns and counts exactly.
+
+   The model (Model/Buffer.v) is the libtw2-buffer crate after the repair of
+   `BufferRef::cap_at` (commit 4eb9351: clamp the index to the buffer length; on
+   the unchanged tree `cap_at(n)` with n beyond the remaining capacity panicked,
+   see known_findings/C19.json).  Memory is one flat byte list per root
+   container, a BufferRef is a window into it plus the counter it points to,
+   a program is the tree of with_buffer closures.  All theorems quantify over
+   every store (Vec / ArrayVec with any contents and spare capacity, slice,
+   slice reference, capped any number of times) and every program (writes,
+   iterator extends, advance, writes into uninitialized_mut(), nested and capped
+   nested views to any depth, readers, early exits by `?`, by consuming the view,
+   by dropping it unused, by the panic of `advance`).
+
+   What these theorems do NOT cover: that the compiled `unsafe` code performs
+   the accesses the model says (raw pointers, lifetimes); see props/C19.py. *)
+From LibTw2 Require Import Base.Res Model.Buffer
+  Proofs.BufferMem Proofs.BufferOps Proofs.BufferRun Proofs.BufferStore.
+From Coq Require Import ZArith List Lia.
+Import ListNotations.
 Open Scope Z_scope.
 
+(* ---------- never past the capacity ---------- *)
+
+(* r_views lists every state every view (root, nested, capped) goes through; r_init is the
+   counter the owner is updated with; data ++ rest is the whole allocation afterwards *)
+Theorem C19_never_past_capacity : forall s p,
+  let r := run_store s p in
+  Forall (fun v => (v_init v <= v_cap v /\ v_off v + v_cap v <= length (store_mem s))%nat) (r_views r)
+  /\ (r_init r <= store_spare s)%nat
+  /\ (store_wf s = true -> Z.of_nat (r_init r) <= store_cap s)
+  /\ (length (r_data r) + length (r_rest r) = length (store_mem s))%nat
+  /\ (forall j, (j < length (store_data s) \/ length (store_data s) + store_spare s <= j)%nat ->
+        nth_error (r_data r ++ r_rest r) j = nth_error (store_mem s) j).
+Proof.
+  intros s p r. destruct (run_store_good s p) as [Hv _ _ _ Hc Hcw Hs _ _ Hf].
+  split; [exact Hv|]. split; [exact Hc|]. split; [exact Hcw|]. split; [exact Hs|exact Hf].
+Qed.
+
+(* a write / extend in any state satisfying the invariant (by the theorem above: in every state
+   that is ever reached): Ok iff everything fits; otherwise CapacityError, and in both cases
+   exactly the fitting prefix has been stored and nothing else has changed; on failure one item
+   more than fits has been pulled from the iterator *)
+Theorem C19_capacity_error : forall m v bs,
+  (v_init v <= v_cap v /\ v_off v + v_cap v <= length m)%nat ->
+  exists m',
+    extend m v bs =
+      (m', with_init v (v_init v + Nat.min (length bs) (room v)),
+       Ok ((length bs <=? room v)%nat, if (length bs <=? room v)%nat then length bs else S (room v)))
+    /\ length m' = length m
+    /\ slice m' (v_off v + v_init v) (Nat.min (length bs) (room v)) = Some (firstn (room v) bs)
+    /\ forall j, (j < v_off v + v_init v \/ v_off v + v_init v + Nat.min (length bs) (room v) <= j)%nat ->
+         nth_error m' j = nth_error m j.
+Proof. intros m v bs H. exact (extend_exact bs m v H). Qed.
+
+(* ---------- exactly the accepted bytes, in order ---------- *)
+
+(* r_reports: for every slice handed out by initialized() / read_buffer_ref / read_buffer, the triple
+   (where it starts, slice read from the memory, ghost log of the bytes that view accepted so far, in order);
+   r_acc: the ghost log of the root view; r_init: its counter *)
+Theorem C19_exact : forall s p,
+  let r := run_store s p in
+  Forall (fun ra => snd (fst ra) = snd ra) (r_reports r)
+  /\ length (r_acc r) = r_init r
+  /\ firstn (r_init r) (skipn (length (store_data s)) (r_data r ++ r_rest r)) = r_acc r.
+Proof.
+  intros s p r. destruct (run_store_good s p) as [_ Hr _ Hc Hcap _ Hs Hrel _ _].
+  split; [exact Hr|]. split; [exact Hc|]. fold r in Hc, Hcap, Hs, Hrel.
+  pose proof (owner_data s) as Ho. pose proof (store_mem_length s) as Hm.
+  destruct (store_owner s); rewrite ?Ho in *; cbn [length skipn] in *.
+  - rewrite Hrel, <- app_assoc, skipn_app, skipn_all, Nat.sub_diag. cbn [skipn app].
+    rewrite firstn_app, <- Hc, firstn_all, Nat.sub_diag. cbn [firstn]. apply app_nil_r.
+  - rewrite Hrel, <- app_assoc, skipn_app, skipn_all, Nat.sub_diag. cbn [skipn app].
+    rewrite firstn_app, <- Hc, firstn_all, Nat.sub_diag. cbn [firstn]. apply app_nil_r.
+  - destruct Hrel as [Hl Hf]. rewrite firstn_app. replace (r_init r - length (r_data r))%nat with 0%nat by lia.
+    cbn [firstn]. rewrite app_nil_r. exact Hf.
+  - rewrite Hrel. rewrite firstn_app, <- Hc, firstn_all, Nat.sub_diag. cbn [firstn]. apply app_nil_r.
+Qed.
+
+(* the ghost log is what one means by "the bytes written, in order": for a closure that just
+   writes w1 .. wn and returns initialized(), on any store, it is the prefix of w1 ++ .. ++ wn
+   that fits the (capped) capacity, and this is the slice that is returned *)
+Theorem C19_exact_writes : forall s ws, store_wf s = true ->
+  let r := run_store s (pwrites ws PInit) in
+  r_acc r = firstn (Z.to_nat (store_cap s)) (concat ws)
+  /\ r_reports r = [(length (store_data s), r_acc r, r_acc r)]
+  /\ r_exit r = XOk
+  /\ exists evs, r_evs r = evs ++ [EBytes (r_acc r)].
+Proof. exact run_store_pwrites. Qed.
+
+(* a slice that was handed out (its lifetime is that of the data, not of the view) is never written
+   over afterwards: when everything has been released it lies inside the part that was added to
+   the container and the memory still holds exactly the bytes that were reported *)
+Theorem C19_reported_stable : forall s p,
+  let r := run_store s p in
+  Forall (fun ra =>
+      let off := fst (fst ra) in let bs := snd (fst ra) in
+      (length (store_data s) <= off /\ off + length bs <= length (store_data s) + r_init r)%nat
+      /\ slice (r_data r ++ r_rest r) off (length bs) = Some bs) (r_reports r).
+Proof.
+  intros s p r. destruct (run_store_good s p) as [_ _ _ _ Hcap _ Hs _ Hh _]. fold r in Hcap, Hs, Hh.
+  pose proof (store_mem_length s) as Hm.
+  eapply Forall_impl; [|exact Hh]. intros [[off bs] a] [H1 [H2 H3]]. cbn [fst snd] in *. split; [split; assumption|].
+  apply slice_eq; [rewrite app_length; lia|reflexivity|exact H3].
+Qed.
+
+(* ---------- release: the owner is updated with exactly the counter ---------- *)
+
+(* no hypothesis on how the closure ended: also after an early exit, an unused view, a panic *)
+Theorem C19_release : forall s p,
+  let r := run_store s p in
+  match store_owner s with
+  | OVec len | OArrayVec len =>        (* set_len(len + initialized) *)
+      r_data r = store_data s ++ r_acc r /\ length (r_data r) = (len + r_init r)%nat
+  | OSliceRef =>                        (* *slice = &mut slice[..initialized] *)
+      r_data r = r_acc r /\ length (r_data r) = r_init r
+  | OSlice =>                           (* nothing to update; the slice starts with the accepted bytes *)
+      length (r_data r) = length (store_mem s) /\ firstn (r_init r) (r_data r) = r_acc r
+  end.
+Proof.
+  intros s p r. destruct (run_store_good s p) as [_ _ _ Hc _ _ _ Hrel _ _]. fold r in Hc, Hrel.
+  pose proof (owner_data s) as Ho.
+  destruct (store_owner s).
+  - split; [exact Hrel|]. rewrite Hrel, app_length. lia.
+  - split; [exact Hrel|]. rewrite Hrel, app_length. lia.
+  - exact Hrel.
+  - split; [exact Hrel|]. rewrite Hrel. exact Hc.
+Qed.
+
+(* a nested view, capped or not: whatever its closure does and however it ends, the Drop of the
+   intermediate advances the parent's counter by exactly the bytes the child accepted, which are
+   the bytes now following the parent's initialized part; the parent continues in that state *)
+Theorem C19_release_nested : forall m v acc caps sub,
+  view_okb (length m) v = true ->                    (* initialized <= capacity, window inside the allocation *)
+  slice m (v_off v) (v_init v) = Some acc ->         (* the parent's initialized part *)
+  exists c, open_child v caps = Ok c
+    /\ (v_cap c <= room v)%nat
+    /\ (forallb is_usize caps = true -> Z.of_nat (v_cap c) = fold_left Z.min caps (Z.of_nat (room v)))
+    /\ let o := run m c [] sub in
+       let v' := with_init v (v_init v + s_init o) in
+       length (s_acc o) = s_init o
+       /\ view_okb (length m) v' = true
+       /\ length (s_mem o) = length m
+       /\ slice (s_mem o) (v_off v) (v_init v') = Some (acc ++ s_acc o)
+       /\ forall q k, run m v acc (PNested q caps sub k)
+            = after_child v acc q [EOpen (room c)] o (fun m' v'' acc' => run m' v'' acc' k).
+Proof.
+  intros m v acc caps sub Hvb Hs. apply view_okb_iff in Hvb. pose proof Hvb as Hv.
+  pose proof (acc_ok_of_slice _ _ _ Hs) as Ha. set (total := length m) in *.
+  destruct (open_child_spec v caps total Hv) as [c [E [Ho [Hc0 [Hcc Hcaps]]]]].
+  exists c. split; [exact E|]. split; [exact Hcc|]. split; [exact Hcaps|].
+  assert (Hvc : view_ok total c) by (apply (child_ok v c total); assumption).
+  assert (Hac : acc_ok m c []) by (split; [cbn; lia|intros i Hi; lia]).
+  destruct (run_good total sub m c [] eq_refl Hvc Hac) as [G1 G2 G3 [G4 G4'] _ G6 _ _ _ _].
+  cbn [with_init v_off v_cap v_init] in G4, G4'. destruct Hv as [Hi Ht]. destruct Ha as [La Na].
+  unfold room in Hcc. rewrite Hc0 in *.
+  cbn zeta. split; [exact G4|].
+  assert (Hv' : view_ok total (with_init v (v_init v + s_init (run m c [] sub))))
+    by (unfold view_ok, with_init; cbn [v_off v_cap v_init]; lia).
+  split; [apply view_okb_iff; exact Hv'|]. split; [exact G1|]. split.
+  - cbn [with_init v_init]. apply slice_eq; [lia|rewrite app_length; lia|].
+    intros i Hi'. destruct (Nat.lt_ge_cases i (v_init v)).
+    + rewrite nth_error_app_l by lia. rewrite G6 by lia. apply Na. assumption.
+    + rewrite nth_error_app_r by lia. rewrite <- G4' by lia. f_equal. lia.
+  - intros q k. cbn [run]. rewrite E. reflexivity.
+Qed.
+
+(* ---------- index safety ---------- *)
+
+(* no slice-index expression, checked subtraction, assert of cap_at / set_len, and none of the ghost
+   checks (set_len within the capacity, parent counter within the parent's buffer, a byte access
+   outside the allocation) ever fires; the only panic left is the documented assertion of the
+   unsafe fn `advance`.  Every state reached satisfies the obligation of each `[a..b]` of
+   buffer/src (index_obligations, one field per expression), and the two Drop-time expressions
+   (slice_ref.rs `slice[..self.initialized]`, vec.rs / arrayvec.rs `set_len(len + initialized)`)
+   are within the slice / the capacity *)
+Theorem C19_index_safety : forall s p,
+  let r := run_store s p in
+  (forall site, In site checked_sites -> r_exit r <> XPanic site)
+  /\ (forall site, r_exit r = XPanic site -> site = site_advance_overflow \/ site = site_advance_assert)
+  /\ Forall (index_obligations (length (store_mem s))) (r_views r)
+  /\ (r_init r <= store_spare s)%nat                                              (* slice_ref.rs drop *)
+  /\ (length (store_data s) + r_init r <= length (store_data s) + store_spare s)%nat.  (* set_len *)
+Proof.
+  intros s p r. destruct (run_store_good s p) as [Hv _ Hx _ Hc _ _ _ _ _]. fold r in Hv, Hx, Hc.
+  split; [|split; [|split; [|split]]].
+  - intros site Hin. apply safe_exit_not_checked; assumption.
+  - intros site Hs. rewrite Hs in Hx. destruct Hx as [H|[H|[H|H]]]; try discriminate H;
+      injection H as ->; [left|right]; reflexivity.
+  - eapply Forall_impl; [|exact Hv]. intros v. apply view_ok_obligations.
+  - exact Hc.
+  - lia.
+Qed.
+
+(* ---------- non-vacuity ---------- *)
+
+(* a Vec with contents [1;2] and 6 spare bytes, capped at 5: write 2 bytes; a nested view capped at
+   2 takes 3 bytes -> CapacityError with the prefix kept, closure exits by `?`; a reader fills what
+   is left of the cap (1 byte of 3); a write of 1 more byte fails; initialized() reports 5 bytes;
+   the Vec ends with length 2 + 5 *)
 Example C19_nonvacuous :
-  r_exit (run_store (SCapAt 10 (SSlice [1; 2; 3; 4])) PEnd) = XOk.
-Proof. vm_compute. reflexivity. Qed.
+  let s := SCapAt 5 (SVec [1; 2] [0; 0; 0; 0; 0; 0]) in
+  let p := PWrite false [10; 11]
+            (PNested false [2] (PWrite true [20; 21; 22] PEnd)
+              (PRead [] false [30; 31; 32]
+                (PWrite false [40] PInit))) in
+  let r := run_store s p in
+  store_wf s = true /\ prog_wf p = true
+  /\ r_evs r = [EOpen 5; EWrite true; EOpen 2; EWrite false; EClose false 1;
+                EBytes [30]; EClose true 0; EWrite false; EBytes [10; 11; 20; 21; 30]]
+  /\ r_exit r = XOk
+  /\ r_data r = [1; 2; 10; 11; 20; 21; 30] /\ r_rest r = [0]
+  /\ r_init r = 5%nat /\ length (r_views r) = 8%nat /\ length (r_reports r) = 2%nat
+  (* the panic of advance unwinds through the Drops: the bytes accepted before it are released *)
+  /\ (let r2 := run_store (SSliceRef [7; 7; 7; 7]) (PWrite false [1] (PNested false [] (PWrite false [2] (PAdvance 5 PEnd)) PEnd)) in
+      r_exit r2 = XPanic site_advance_assert /\ r_data r2 = [1; 2] /\ r_rest r2 = [7; 7])
+  (* the hypotheses of C19_release_nested: a parent at offset 2 with 1 of 4 bytes initialized *)
+  /\ (let m := [1; 2; 10; 0; 0; 0; 0] in let v := {| v_off := 2; v_cap := 4; v_init := 1 |} in
+      view_okb (length m) v = true /\ slice m (v_off v) (v_init v) = Some [10])
+  (* cap_at beyond the capacity caps (the repaired defect) *)
+  /\ r_evs (run_store (SCapAt 10 (SSlice [1; 2; 3; 4])) PEnd) = [EOpen 4].
+Proof. vm_compute. repeat split. Qed.
+
+Print Assumptions C19_never_past_capacity.
+Print Assumptions C19_capacity_error.
+Print Assumptions C19_exact.
+Print Assumptions C19_exact_writes.
+Print Assumptions C19_reported_stable.
+Print Assumptions C19_release.
+Print Assumptions C19_release_nested.
+Print Assumptions C19_index_safety.
 Print Assumptions C19_nonvacuous.
